@@ -118,6 +118,7 @@ type Run struct {
 	raceSeen map[string]bool
 	backings   map[*Value]*Backing
 	bufBacking map[*Value]*Backing
+	pools      map[*Value]*PoolObj
 }
 
 type InputMeta struct {
